@@ -179,4 +179,348 @@ theorem no_glue_pairs (t : Tok) (hw : TokWF t) (c d : Char) (hd : (sp t).getLast
     simp [nextOK, hwf] at h
     simp [gluePairs, h]
 
+/-! ### no remark opener or closer in the laid-out text of an expression -/
+
+def remarkPairs : List (Char × Char) := [('-', '-'), ('(', '*'), ('*', ')')]
+
+/-- does the text contain one of the two-character sequences -/
+def hasPair (ps : List (Char × Char)) : List Char → Bool
+  | a :: b :: r => ps.contains (a, b) || hasPair ps (b :: r)
+  | _ => false
+
+/-- the two characters that meet where `A` ends and `B` begins -/
+def boundary (ps : List (Char × Char)) (A B : List Char) : Bool :=
+  match A.getLast?, B.head? with
+  | some d, some c => ps.contains (d, c)
+  | _, _ => false
+
+theorem noPair_append (ps : List (Char × Char)) : ∀ (A B : List Char), hasPair ps A = false → hasPair ps B = false →
+    boundary ps A B = false → hasPair ps (A ++ B) = false := by
+  intro A
+  induction A with
+  | nil => intro B _ hB _; simpa using hB
+  | cons a A' ih =>
+    intro B hA hB hb
+    cases A' with
+    | nil =>
+      cases B with
+      | nil => simp [hasPair]
+      | cons c B' =>
+        simp only [boundary, List.getLast?_singleton, List.head?_cons] at hb
+        simp only [List.cons_append, List.nil_append, hasPair, hb, Bool.false_or]
+        exact hB
+    | cons b A'' =>
+      simp only [hasPair, Bool.or_eq_false_iff] at hA
+      have hb' : boundary ps (b :: A'') B = false := by
+        simpa [boundary, List.getLast?_cons_cons] using hb
+      simp only [List.cons_append, hasPair, hA.1, Bool.false_or]
+      exact ih B hA.2 hB hb'
+
+theorem gluePairs_remark (d c : Char) (h : (d, c) ∉ gluePairs) : remarkPairs.contains (d, c) = false := by
+  simp only [gluePairs, List.mem_cons, List.mem_nil_iff, or_false, not_or] at h
+  simp only [remarkPairs, List.contains_cons, List.contains_nil, Bool.or_false, Bool.or_eq_false_iff, beq_eq_false_iff_ne, ne_eq]
+  exact ⟨h.1, h.2.1, h.2.2.1⟩
+
+theorem ws_not_second (d c : Char) (h : isWsC c = true) : remarkPairs.contains (d, c) = false :=
+  gluePairs_remark d c (ws_pair d c h)
+
+theorem ws_not_first (d c : Char) (h : isWsC d = true) : remarkPairs.contains (d, c) = false := by
+  simp only [isWsC, Bool.or_eq_true, beq_iff_eq] at h
+  rcases h with ((rfl | rfl) | rfl) | rfl <;> simp [remarkPairs]
+
+theorem noPair_ws (W : List Char) (h : W.all isWsC = true) : hasPair remarkPairs W = false := by
+  induction W with
+  | nil => rfl
+  | cons a W ih =>
+    simp only [List.all_cons, Bool.and_eq_true] at h
+    cases W with
+    | nil => rfl
+    | cons b W' =>
+      simp only [hasPair, ws_not_first a b h.1, Bool.false_or]
+      exact ih h.2
+
+/-- how the text ends, seen from the token that may still be open -/
+def End (T : List Char) : Option Tok → Prop
+  | none => T = [] ∨ ∃ c, T.getLast? = some c ∧ isWsC c = true
+  | some t => ∃ d, (sp t).getLast? = some d ∧ T.getLast? = some d
+
+def CleanT (T : List Char) (lt : Option Tok) : Prop := hasPair remarkPairs T = false ∧ End T lt
+
+theorem boundary_ws_right (A W : List Char) (hW : W.all isWsC = true) : boundary remarkPairs A W = false := by
+  unfold boundary
+  cases hA : A.getLast? with
+  | none => rfl
+  | some d =>
+    cases W with
+    | nil => rfl
+    | cons c W' =>
+      simp only [List.all_cons, Bool.and_eq_true] at hW
+      simpa using ws_not_second d c hW.1
+
+theorem getLast?_append_ne {T S : List Char} (h : S ≠ []) : (T ++ S).getLast? = S.getLast? := by
+  rw [List.getLast?_append]
+  cases hs : S.getLast? with
+  | none => exact absurd (by simpa [List.getLast?_eq_none_iff] using hs) h
+  | some x => rfl
+
+/-- appending white space -/
+theorem clean_ws {T : List Char} {lt : Option Tok} (h : CleanT T lt) (W : List Char) (hW : W.all isWsC = true) (hne : W ≠ []) :
+    CleanT (T ++ W) none := by
+  refine ⟨noPair_append _ T W h.1 (noPair_ws W hW) (boundary_ws_right T W hW), Or.inr ?_⟩
+  rw [getLast?_append_ne hne]
+  obtain ⟨c, hc⟩ : ∃ c, W.getLast? = some c := by
+    cases hl : W.getLast? with
+    | none => exact absurd (by simpa [List.getLast?_eq_none_iff] using hl) hne
+    | some c => exact ⟨c, rfl⟩
+  refine ⟨c, hc, ?_⟩
+  simp only [List.all_eq_true] at hW
+  exact hW c (List.mem_of_getLast? hc)
+
+/-- appending a token whose own spelling is clean, after white space / at the start / directly after a token it may follow -/
+theorem clean_tok {T : List Char} {lt : Option Tok} (h : CleanT T lt) (t : Tok) (hw : TokWF t)
+    (hsp : hasPair remarkPairs (sp t) = false) (hadj : ∀ t0, lt = some t0 → TokWF t0 ∧ adjOK t0 t = true) :
+    CleanT (T ++ sp t) (some t) := by
+  obtain ⟨c0, d, r, hs, _, hlast, _⟩ := sp_ends t hw
+  have hne : sp t ≠ [] := by rw [hs]; simp
+  refine ⟨noPair_append _ T (sp t) h.1 hsp ?_, ⟨d, hlast, by rw [getLast?_append_ne hne]; exact hlast⟩⟩
+  unfold boundary
+  cases hT : T.getLast? with
+  | none => rfl
+  | some x =>
+    rw [hs]
+    simp only [List.head?_cons]
+    cases lt with
+    | none =>
+      rcases h.2 with h0 | ⟨c, hc, hcw⟩
+      · rw [h0] at hT; simp at hT
+      · rw [hT] at hc; cases hc; exact ws_not_first x c0 hcw
+    | some t0 =>
+      obtain ⟨d0, hd0, hT0⟩ := h.2
+      rw [hT] at hT0; cases hT0
+      obtain ⟨hw0, ha⟩ := hadj t0 rfl
+      refine gluePairs_remark x c0 ?_
+      apply no_glue_pairs t0 hw0 c0 x hd0
+      simpa [adjOK, hs] using ha
+
+def WfO (lt : Option Tok) : Prop := ∀ t0, lt = some t0 → TokWF t0
+
+theorem clean_body : ∀ (body : List (Tok × Nat)) (T : List Char) (lt : Option Tok), CleanT T lt → WfO lt → bodySafe lt body →
+    (∀ x ∈ body, hasPair remarkPairs (sp x.1) = false) →
+    CleanT (T ++ bodyText body) (endAfter lt body) ∧ WfO (endAfter lt body) := by
+  intro body
+  induction body with
+  | nil => intro T lt h hw _ _; simpa [bodyText, endAfter] using And.intro h hw
+  | cons x rest ih =>
+    obtain ⟨t, g⟩ := x
+    intro T lt h hw hs hcl
+    obtain ⟨hwf, hadj, hrest⟩ := hs
+    have h1 := clean_tok h t hwf (hcl (t, g) (by simp)) (fun t0 h0 => ⟨hw t0 h0, hadj t0 h0⟩)
+    have h2 : CleanT (T ++ sp t ++ blanks g) (nxt t g) ∧ WfO (nxt t g) := by
+      by_cases hg : g = 0
+      · subst hg
+        simp only [blanks, List.replicate_zero, List.append_nil, nxt, if_true]
+        exact ⟨h1, fun t0 h0 => by cases h0; exact hwf⟩
+      · have hn : nxt t g = none := by simp [nxt, hg]
+        rw [hn]
+        exact ⟨clean_ws h1 (blanks g) (blanks_ws g) (fun hb => hg ((blanks_eq_nil g).mp hb)), fun t0 h0 => by cases h0⟩
+    have := ih (T ++ sp t ++ blanks g) (nxt t g) h2.1 h2.2 hrest (fun y hy => hcl y (List.mem_cons_of_mem _ hy))
+    simpa [bodyText, endAfter, List.append_assoc] using this
+
+theorem clean_piece (T : List Char) (lt : Option Tok) (h : CleanT T lt) (hw : WfO lt) (ws : List Char) (hws : ws.all isWsC = true)
+    (body : List (Tok × Nat)) (hsafe : bodySafe (if ws = [] then lt else none) body)
+    (hcl : ∀ x ∈ body, hasPair remarkPairs (sp x.1) = false) :
+    CleanT (T ++ ws ++ bodyText body) (endAfter (if ws = [] then lt else none) body)
+      ∧ WfO (endAfter (if ws = [] then lt else none) body) := by
+  by_cases hw0 : ws = []
+  · subst hw0
+    simp only [if_true, List.append_nil] at hsafe ⊢
+    exact clean_body body T lt h hw hsafe hcl
+  · simp only [hw0, if_false] at hsafe ⊢
+    exact clean_body body (T ++ ws) none (clean_ws h ws hws hw0) (fun t0 h0 => by cases h0) hsafe hcl
+
+/-- what one fragment adds to the text: white space (nothing, blanks, or a line break with its indent and blanks), then the tokens
+of the fragment with the blanks after them -/
+theorem step_shape (st : PState) (TS : List Tok) (lt slt : Option Tok) (a : AFrag) (hK : K st TS lt) (hr : lt = none ∨ lt = slt)
+    (hs : bodySafe (a.prev slt) a.body) :
+    ∃ ws, ws.all isWsC = true ∧ (step st a.frag).text = st.text ++ ws ++ bodyText a.body
+      ∧ bodySafe (if ws = [] then lt else none) a.body
+      ∧ ((if ws = [] then lt else none) = none ∨ (if ws = [] then lt else none) = a.prev slt) ∧ Inv (step st a.frag) := by
+  obtain ⟨hinv, hlex, hE⟩ := hK
+  unfold AFrag.frag
+  split
+  · -- wrap
+    obtain ⟨sep, k, htext, hsep, htake, hhead⟩ := wrap_piece st hinv a.text
+    have hB := bodyText_head a.body (bodySafe_none hs)
+    have hdrop : a.text.drop k = blanks (a.lead - k) ++ bodyText a.body := drop_blanks_body a.lead k _ hB htake
+    have hwsAll : (sep ++ blanks (a.lead - k)).all isWsC = true := by
+      rw [List.all_append, blanks_ws, Bool.and_true]
+      rcases hsep with rfl | rfl
+      · rfl
+      · exact newlinePiece_ws _
+    have hp : (if sep ++ blanks (a.lead - k) = [] then lt else none) = none
+        ∨ (if sep ++ blanks (a.lead - k) = [] then lt else none) = a.prev slt := by
+      by_cases hw : sep ++ blanks (a.lead - k) = []
+      · rw [if_pos hw]
+        obtain ⟨hs1, hs2⟩ := List.append_eq_nil_iff.mp hw
+        by_cases hl : a.lead = 0
+        · simp only [AFrag.prev, hl, if_true]; exact hr
+        · left
+          have hh : a.text.head? = some ' ' := by
+            cases hlead : a.lead with
+            | zero => exact absurd hlead hl
+            | succ n => simp [AFrag.text, hlead, blanks, List.replicate_succ]
+          rcases hhead hh with h1 | h1 | h1
+          · exact absurd hs1 h1
+          · exact hE h1
+          · exfalso
+            rw [hdrop, hs2, List.nil_append] at h1
+            rcases hB with hb | ⟨c, r, hb, hc⟩
+            · rw [hb] at h1; simp at h1
+            · rw [hb] at h1; simp at h1; exact hc h1
+      · rw [if_neg hw]; exact Or.inl rfl
+    refine ⟨sep ++ blanks (a.lead - k), hwsAll, ?_, bodySafe_refine hp hs, hp, inv_wrap st _ hinv⟩
+    simp only [step]
+    rw [htext, hdrop]; simp [List.append_assoc]
+  · -- raw
+    have hp : (if blanks a.lead = [] then lt else none) = none ∨ (if blanks a.lead = [] then lt else none) = a.prev slt := by
+      by_cases hl : a.lead = 0
+      · have hb : blanks a.lead = [] := (blanks_eq_nil _).mpr hl
+        rw [if_pos hb]
+        have : a.prev slt = slt := by simp [AFrag.prev, hl]
+        rw [this]; exact hr
+      · have hb : blanks a.lead ≠ [] := fun h => hl ((blanks_eq_nil _).mp h)
+        rw [if_neg hb]; exact Or.inl rfl
+    refine ⟨blanks a.lead, blanks_ws _, ?_, bodySafe_refine hp hs, hp, inv_raw st _ hinv⟩
+    simp only [step, text_raw, AFrag.text, List.append_assoc]
+
+/-- Part I once more, carrying the text invariant: no remark opener or closer arises -/
+theorem KC_run (as : List AFrag) : ∀ (st : PState) (TS : List Tok) (lt slt : Option Tok), K st TS lt → CleanT st.text lt → WfO lt →
+    (lt = none ∨ lt = slt) → SafeSeq slt as → (∀ a ∈ as, ∀ x ∈ a.body, hasPair remarkPairs (sp x.1) = false) →
+    ∃ lt', K (run st (as.map AFrag.frag)) (TS ++ as.flatMap AFrag.toks) lt' ∧ CleanT (run st (as.map AFrag.frag)).text lt' := by
+  induction as with
+  | nil => intro st TS lt slt hK hC _ _ _ _; exact ⟨lt, by simpa [run] using hK, by simpa [run] using hC⟩
+  | cons a as ih =>
+    intro st TS lt slt hK hC hW hr hs hcl
+    obtain ⟨ws, hws, htext, hsafe, hp, hinv'⟩ := step_shape st TS lt slt a hK hr hs.1
+    have hl := lexInv_piece st.text TS lt hK.2.1 hK.2.2 ws hws a.body hsafe
+    have hc := clean_piece st.text lt hC hW ws hws a.body hsafe (hcl a (by simp))
+    have hK1 : K (step st a.frag) (TS ++ a.toks) (endAfter (if ws = [] then lt else none) a.body) := by
+      refine ⟨hinv', ?_, ?_⟩
+      · rw [htext]; exact hl.1
+      · rw [htext]; exact hl.2
+    have hr1 : endAfter (if ws = [] then lt else none) a.body = none
+        ∨ endAfter (if ws = [] then lt else none) a.body = a.flow slt := endAfter_refine a.body hp
+    obtain ⟨lt2, hK2, hC2⟩ := ih (step st a.frag) (TS ++ a.toks) _ (a.flow slt) hK1 (by rw [htext]; exact hc.1) hc.2 hr1 hs.2
+      (fun b hb => hcl b (List.mem_cons_of_mem _ hb))
+    exact ⟨lt2, by simpa [run, List.flatMap_cons, List.append_assoc] using hK2, by simpa [run] using hC2⟩
+
+/-! ### a token's own spelling contains no remark opener or closer (string literals apart) -/
+
+def nf3 (x : Char) : Bool := x != '-' && x != '(' && x != '*'
+
+theorem contains_nf3 (a b : Char) (h : nf3 a = true) : remarkPairs.contains (a, b) = false := by
+  simp only [nf3, Bool.and_eq_true, bne_iff_ne, ne_eq] at h
+  simp [remarkPairs, h.1.1, h.1.2, h.2]
+
+theorem noPair_of_chars : ∀ (l : List Char), (∀ x ∈ l, nf3 x = true) → hasPair remarkPairs l = false := by
+  intro l
+  induction l with
+  | nil => intro _; rfl
+  | cons a l ih =>
+    intro h
+    cases l with
+    | nil => rfl
+    | cons b l' =>
+      simp only [hasPair, contains_nf3 a b (h a (by simp)), Bool.false_or]
+      exact ih (fun x hx => h x (List.mem_cons_of_mem _ hx))
+
+theorem idChar_nf3 (x : Char) (h : idChar x = true) : nf3 x = true := by
+  simp only [nf3, Bool.and_eq_true, bne_iff_ne, ne_eq]
+  refine ⟨⟨?_, ?_⟩, ?_⟩ <;> (rintro rfl; revert h; decide)
+
+theorem boundary_nf3 (A B : List Char) (h : ∀ x ∈ A, nf3 x = true) : boundary remarkPairs A B = false := by
+  unfold boundary
+  cases hA : A.getLast? with
+  | none => rfl
+  | some d =>
+    cases B with
+    | nil => rfl
+    | cons c B' => simpa using contains_nf3 d c (h d (List.mem_of_getLast? hA))
+
+theorem real_clean (s : List Char) (h : RealSp s) : hasPair remarkPairs s = false := by
+  obtain ⟨ds, fs, ex, rfl, _, hds, hfs, hex⟩ := h
+  have dig : ∀ (l : List Char), l.all Char.isDigit = true → ∀ x ∈ l, nf3 x = true := by
+    intro l hl x hx
+    simp only [List.all_eq_true] at hl
+    exact idChar_nf3 x (digit_idChar x (hl x hx))
+  have hA : ∀ x ∈ ds ++ '.' :: fs, nf3 x = true := by
+    intro x hx
+    simp only [List.mem_append, List.mem_cons] at hx
+    rcases hx with hx | rfl | hx
+    · exact dig ds hds x hx
+    · decide
+    · exact dig fs hfs x hx
+  have hs : ds ++ '.' :: (fs ++ ex) = (ds ++ '.' :: fs) ++ ex := by simp [List.append_assoc]
+  rw [hs]
+  refine noPair_append _ _ _ (noPair_of_chars _ hA) ?_ (boundary_nf3 _ _ hA)
+  rcases hex with rfl | ⟨e, sg, xs, rfl, he, hsg, hxne, hxs⟩
+  · rfl
+  · have he3 : nf3 e = true := by rcases he with rfl | rfl <;> decide
+    rcases hsg with rfl | rfl | rfl
+    · apply noPair_of_chars
+      intro x hx
+      simp only [List.nil_append, List.mem_cons] at hx
+      rcases hx with rfl | hx
+      · exact he3
+      · exact dig xs hxs x hx
+    · apply noPair_of_chars
+      intro x hx
+      simp only [List.cons_append, List.nil_append, List.mem_cons] at hx
+      rcases hx with rfl | rfl | hx
+      · exact he3
+      · decide
+      · exact dig xs hxs x hx
+    · cases xs with
+      | nil => exact absurd rfl hxne
+      | cons x0 xs' =>
+        have hx0 : nf3 x0 = true := dig _ hxs x0 (by simp)
+        have h0 : x0 ≠ '-' := by
+          simp only [nf3, Bool.and_eq_true, bne_iff_ne, ne_eq] at hx0; exact hx0.1.1
+        simp only [List.cons_append, List.nil_append, hasPair, contains_nf3 e '-' he3, Bool.false_or]
+        have : remarkPairs.contains ('-', x0) = false := by simp [remarkPairs, h0, Ne.symm h0]
+        rw [this, Bool.false_or]
+        exact noPair_of_chars _ (fun x hx => dig _ hxs x hx)
+
+/-- every token other than a string literal is spelled without `--`, `(*`, `*)` -/
+theorem tok_clean (t : Tok) (hw : TokWF t) (hs : ∀ b, t ≠ .str b) (he : ∀ b, t ≠ .estr b) : hasPair remarkPairs (sp t) = false := by
+  cases t with
+  | id s =>
+    apply noPair_of_chars
+    intro x hx
+    have := hw.2.1
+    simp only [List.all_eq_true] at this
+    exact idChar_nf3 x (this x hx)
+  | int n =>
+    apply noPair_of_chars
+    intro x hx
+    rw [sp_int] at hx
+    exact idChar_nf3 x (digit_idChar x (Nat.isDigit_of_mem_toDigits (by omega) (by omega) hx))
+  | real s => exact real_clean s hw
+  | str b => exact absurd rfl (hs b)
+  | estr b => exact absurd rfl (he b)
+  | bin s =>
+    apply noPair_of_chars
+    intro x hx
+    simp only [sp, List.mem_cons] at hx
+    rcases hx with rfl | hx
+    · decide
+    · have := hw.2
+      simp only [List.all_eq_true, decide_eq_true_eq] at this
+      rcases this x hx with rfl | rfl <;> decide
+  | kw s =>
+    simp only [TokWF, List.mem_cons, List.mem_nil_iff, or_false] at hw
+    rcases hw with rfl | rfl | rfl | rfl | rfl | rfl | rfl | rfl <;> decide
+  | op o => cases o <;> decide
+  | _ => decide
+
 end StepModel.Express
